@@ -251,38 +251,26 @@ Section Content.
       - rewrite <- flat_map_app, firstn_skipn. reflexivity. }
     destruct halves as [[first_node second0] start_idx]. simpl in Hhalves.
     set (root1 := upd root (pdp ++ [pk]) (fun _ => first_node)) in *.
-    destruct (nn_reset_loop K kcmp (S dp) (S dp) path root1 (st_warn K s)) as [root2 w2] eqn:E2.
-    assert (HE2 : E root2 = E root1).
-    { pose proof (reset_loop_erase (S dp) (S dp) path root1 (st_warn K s)) as X. rewrite E2 in X. exact X. }
-    set (trip := match nn_first_last K second0 with
-                 | None =>
-                     let '(r, w) := match dp with
-                                    | O => (root2, w2 + 1)
-                                    | S _ => nn_reset_loop K kcmp dp dp path root2 (w2 + 1)
-                                    end in (second0, r, w)
-                 | Some fl =>
-                     let '(r, w) := match dp with
-                                    | O => (root2, w2)
-                                    | S _ => nn_reset_loop K kcmp dp dp path root2 w2
-                                    end in (nn_set_lim K (Some fl) second0, r, w)
-                 end) in *.
-    assert (Htrip : E (fst (fst trip)) = E second0 /\ E (snd (fst trip)) = E root2).
-    { unfold trip. destruct (nn_first_last K second0) as [fl|].
-      - destruct dp as [|dp'].
-        + simpl. split; [apply erase_set_lim|reflexivity].
-        + pose proof (reset_loop_erase (S dp') (S dp') path root2 w2) as X.
-          destruct (nn_reset_loop K kcmp (S dp') (S dp') path root2 w2) as [r w]. simpl in *.
-          split; [apply erase_set_lim|exact X].
-      - destruct dp as [|dp'].
-        + simpl. split; reflexivity.
-        + pose proof (reset_loop_erase (S dp') (S dp') path root2 (w2 + 1)) as X.
-          destruct (nn_reset_loop K kcmp (S dp') (S dp') path root2 (w2 + 1)) as [r w]. simpl in *.
-          split; [reflexivity|exact X]. }
-    destruct trip as [[second_node root3] w3]. simpl in Htrip. destruct Htrip as [HEs HE3].
-    destruct (get root3 pdp) as [[?|pl pkids]|] eqn:Eg3; try discriminate.
+    destruct (get root1 pdp) as [[?|pl pkids]|] eqn:Eg1; try discriminate.
     destruct ((pk <? 0) || (nn_zlen pkids <? pk + 1)) eqn:Erange; [discriminate|].
     apply orb_false_iff in Erange. destruct Erange as [Epk0 _]. apply Z.ltb_ge in Epk0.
-    set (root4 := upd root3 pdp (fun _ => NInner pl (nn_insert_at pkids (Z.to_nat (pk + 1)) second_node))) in *.
+    set (sw := match nn_first_last K second0 with
+               | None => (second0, st_warn K s + 1)
+               | Some fl => (nn_set_lim K (Some fl) second0, st_warn K s)
+               end) in *.
+    assert (HEs : E (fst sw) = E second0).
+    { unfold sw. destruct (nn_first_last K second0); simpl; [apply erase_set_lim|reflexivity]. }
+    destruct sw as [second_node w1]. simpl in HEs.
+    set (root2 := upd root1 pdp (fun _ => NInner pl (nn_insert_at pkids (Z.to_nat (pk + 1)) second_node))) in *.
+    set (r3 := match dp with
+               | O => (root2, w1)
+               | S _ => nn_reset_loop K kcmp dp dp path root2 w1
+               end) in *.
+    assert (HE3 : E (fst r3) = E root2).
+    { unfold r3. destruct dp as [|dp']; [reflexivity|]. apply reset_loop_erase. }
+    destruct r3 as [root3 w3]. simpl in HE3.
+    pose proof (reset_loop_erase (S dp) (S dp) path root3 w3) as HE4.
+    destruct (nn_reset_loop K kcmp (S dp) (S dp) path root3 w3) as [root4 w4]. simpl in HE4.
     assert (Hroot' : st_root K s' = root4).
     { destruct (start_idx <=? _) in H; destruct nd; injection H as <-; reflexivity. }
     rewrite Hroot'. clear H Hroot'.
@@ -290,29 +278,28 @@ Section Content.
     rewrite get_app in Eg. destruct (get root pdp) as [parent0|] eqn:Egp; [|discriminate].
     simpl in Eg. destruct parent0 as [?|pl0 kids0]; [discriminate|].
     destruct (nn_znth kids0 pk) as [k0|] eqn:Ek0; [|discriminate]. injection Eg as ->.
-    rewrite <- (abs_erase root4), <- (abs_erase root).
+    rewrite <- (abs_erase root4), <- (abs_erase root), HE4, HE3.
     (* everything in the erased world *)
     set (K0 := map E kids0).
     set (j := Z.to_nat pk).
-    assert (HEr3 : E root3 = upd (E root) pdp (fun P => upd P [pk] (fun _ => E first_node))).
-    { rewrite HE3, HE2. unfold root1. rewrite (erase_upd _ root _ (fun _ => E first_node)) by reflexivity.
-      apply upd_app. }
+    assert (HEr1 : E root1 = upd (E root) pdp (fun P => upd P [pk] (fun _ => E first_node))).
+    { unfold root1. rewrite (erase_upd _ root _ (fun _ => E first_node)) by reflexivity. apply upd_app. }
     assert (HgetE : get (E root) pdp = Some (NInner None K0)).
     { rewrite get_erase, Egp. reflexivity. }
     assert (Hkids : map E pkids = nn_upd_nth K0 j (fun _ => E first_node)).
-    { pose proof (get_erase pdp root3) as X. rewrite Eg3 in X. simpl in X.
-      rewrite HEr3 in X. rewrite (get_upd_same pdp (E root) _ _ HgetE) in X.
+    { pose proof (get_erase pdp root1) as X. rewrite Eg1 in X. simpl in X.
+      rewrite HEr1 in X. rewrite (get_upd_same pdp (E root) _ _ HgetE) in X.
       simpl in X. destruct (pk <? 0) eqn:E0; [apply Z.ltb_lt in E0; lia|].
       injection X as X. symmetry. exact X. }
-    assert (HEr4 : E root4 = upd (E root) pdp
+    assert (HEr2 : E root2 = upd (E root) pdp
                      (fun _ => NInner None (nn_insert_at (nn_upd_nth K0 j (fun _ => E first_node)) (S j) (E second0)))).
-    { unfold root4.
-      rewrite (erase_upd pdp root3 _ (fun _ => NInner None (nn_insert_at (map E pkids) (Z.to_nat (pk + 1)) (E second0)))).
-      - rewrite HEr3, upd_upd. apply upd_ext. intros n. rewrite Hkids.
+    { unfold root2.
+      rewrite (erase_upd pdp root1 _ (fun _ => NInner None (nn_insert_at (map E pkids) (Z.to_nat (pk + 1)) (E second0)))).
+      - rewrite HEr1, upd_upd. apply upd_ext. intros n. rewrite Hkids.
         replace (Z.to_nat (pk + 1)) with (S j) by (unfold j; lia). reflexivity.
       - intros n. simpl. rewrite map_insert_at, HEs. reflexivity. }
     destruct (abs_context pdp (E root) _ HgetE) as (pre & post & Hc).
-    rewrite HEr4, Hc.
+    rewrite HEr2, Hc.
     replace (abs (E root)) with (abs (upd (E root) pdp (fun n => n))) by (rewrite upd_id; reflexivity).
     rewrite Hc.
     f_equal. f_equal. simpl.
